@@ -41,9 +41,9 @@ InitMain  == Init /\ svc = Mod /\ (AllStarted \/ (NoFault /\ AllButOne))
 InitWide  == Init /\ svc = Mod /\ (AllStarted \/ AllButOne)
 (* one module has no service (transparent in the middle of the graph) *)
 InitHoles == Init /\ svc \in SvcSetsHoles /\ AllStarted
-(* quick tier: without a fault every shape, all wrappers or all but one started; with a fault  *)
-(* the shapes in which every module takes part in a dependency, all wrappers started          *)
-InitQuick == Init /\ svc = Mod /\ IF NoFault THEN AllStarted \/ AllButOne ELSE AllStarted /\ Connected(deps)
+(* quick tier: the shapes in which every module takes part in a dependency; without a fault    *)
+(* all wrappers or all but one started, with a fault all wrappers started                      *)
+InitQuick == Init /\ svc = Mod /\ Connected(deps) /\ IF NoFault THEN AllStarted \/ AllButOne ELSE AllStarted
 (* liveness config *)
 LiveSpec == InitMain /\ [][Next]_vars /\ Fairness
 (* every subset of wrappers started *)
